@@ -369,22 +369,27 @@ Proof.
   induction x; constructor; auto. intros ? ?. apply ok3_N.
 Qed.
 
-Lemma zipc_eq_length_map : forall A B (g : A -> B) (la lb : list A),
-  length la = length lb -> length (map g la) = length (map g lb).
-Proof. intros. rewrite !map_length. assumption. Qed.
+Lemma ok3_by_rank : forall a b c,
+  (N.compare (rank a) (rank b) = Eq -> N.compare (rank b) (rank c) = Eq ->
+   ok3 (cmp a b) (cmp b c) (cmp a c)) ->
+  ok3 (cmp a b) (cmp b c) (cmp a c).
+Proof.
+  intros a0 b0 c0 H.
+  rewrite (cmp_lex_rank a0 b0), (cmp_lex_rank b0 c0), (cmp_lex_rank a0 c0).
+  apply ok3_lex; [apply ok3_N | exact H].
+Qed.
 
 Lemma cmp_ok3 : forall a b c, ok3 (cmp a b) (cmp b c) (cmp a c).
 Proof.
   induction a using cval_nested_ind; intros b0 c0;
-    rewrite (cmp_lex_rank _ b0), (cmp_lex_rank b0 c0), (cmp_lex_rank _ c0);
-    (apply ok3_lex; [apply ok3_N|]); intros E1 E2;
+    apply ok3_by_rank; intros E1 E2;
     (destruct b0; try discriminate E1); (destruct c0; try discriminate E2); clear E1 E2.
   - apply ok3_bool.
   - apply ok3_N.
   - apply ok3_Z.
   - apply ok3_N.
   - apply ok3_bytes.
-  - exact I.
+  - reflexivity.
   - rewrite !cmp_struct. apply lexl_ok3.
     eapply Forall_impl; [|eassumption]. intros [p x] Hx [q y] [r z]. unfold cmp_field. cbn [fst snd] in *.
     apply ok3_lex; [apply ok3_pres|]. intros _ _. apply Hx.
@@ -394,4 +399,205 @@ Proof.
   - rewrite !cmp_map. apply ok3_lex; [apply lexl_ok3; assumption|]. intros E1 E2.
     apply lexl_Eq_length in E1, E2. rewrite !map_length in E1, E2.
     apply zipc_ok3; rewrite ?map_length; assumption.
+Qed.
+
+Theorem cmp_trans : forall a b c, cmp a b = Lt -> cmp b c = Lt -> cmp a c = Lt.
+Proof. intros a b c H1 H2. pose proof (cmp_ok3 a b c) as H. rewrite H1, H2 in H. exact H. Qed.
+
+Theorem cmp_trans_gt : forall a b c, cmp a b = Gt -> cmp b c = Gt -> cmp a c = Gt.
+Proof. intros a b c H1 H2. pose proof (cmp_ok3 a b c) as H. rewrite H1, H2 in H. exact H. Qed.
+
+Theorem cmp_trans_eq_l : forall a b c r, cmp a b = Eq -> cmp b c = r -> cmp a c = r.
+Proof. intros a b c r H1 H2. pose proof (cmp_ok3 a b c) as H. rewrite H1, H2 in H. exact H. Qed.
+
+Theorem cmp_trans_eq_r : forall a b c r, cmp a b = r -> cmp b c = Eq -> cmp a c = r.
+Proof.
+  intros a b c r H1 H2. pose proof (cmp_ok3 a b c) as H. rewrite H1, H2 in H.
+  destruct r; exact H.
+Qed.
+
+(* ------------------------------------------------------------------------------------------ *)
+(* cmp a b = Eq exactly for equal values (float payloads being 64-bit patterns)                *)
+
+Definition f64_ok (bits : N) : bool := bits <? 18446744073709551616.
+
+(* every CF64 payload, at any depth (including stored values of absent optional fields, which
+   the comparison looks at), is a 64-bit pattern; nothing else is constrained *)
+Fixpoint wfb (v : cval) : bool :=
+  match v with
+  | CF64 bits => f64_ok bits
+  | CStruct fs => forallb (fun pf => wfb (snd pf)) fs
+  | COneof _ x => wfb x
+  | CArr l => forallb wfb l
+  | CMap kvs => forallb (fun kv => wfb (fst kv) && wfb (snd kv)) kvs
+  | _ => true
+  end.
+
+Definition wf (v : cval) : Prop := wfb v = true.
+
+Lemma testbit63_ge : forall x, N.testbit x 63 = true -> 9223372036854775808 <= x.
+Proof.
+  intros x H. destruct (N.lt_ge_cases x 9223372036854775808) as [L|L]; [|exact L].
+  exfalso. rewrite N.bits_above_log2 in H; [discriminate|].
+  destruct x as [|p]; [discriminate|].
+  apply N.log2_lt_pow2; [reflexivity|]. exact L.
+Qed.
+
+Lemma f64_key_inj : forall x y, f64_ok x = true -> f64_ok y = true ->
+  f64_key x = f64_key y -> x = y.
+Proof.
+  unfold f64_ok, f64_key. intros x y Hx Hy H.
+  apply N.ltb_lt in Hx, Hy.
+  destruct (N.testbit x 63) eqn:Bx; destruct (N.testbit y 63) eqn:By;
+    try apply testbit63_ge in Bx; try apply testbit63_ge in By; lia.
+Qed.
+
+(* the bound is needed, on both sides: above 2^64 the key function truncates (the left value
+   below is the 64-bit pattern 2^64-1, the right one is 2^64+2^63) *)
+Example f64_key_not_injective_above_64 :
+  cmp (CF64 18446744073709551615) (CF64 27670116110564327424) = Eq /\
+  data (CF64 18446744073709551615) <> data (CF64 27670116110564327424).
+Proof. split; [reflexivity | discriminate]. Qed.
+
+Definition eq_at {A} (R : A -> Prop) (f : A -> A -> comparison) (x : A) : Prop :=
+  forall y, R y -> f x y = Eq -> x = y.
+
+Lemma lexl_eq : forall A (R : A -> Prop) (f : A -> A -> comparison) la,
+  Forall (eq_at R f) la -> eq_at (Forall R) (lexl f) la.
+Proof.
+  induction 1 as [|x la Hx _ IH]; intros [|y lb] Hb; cbn [lexl]; try discriminate; auto.
+  intros H. apply lex_eq in H. destruct H as [H1 H2]. inversion Hb; subst.
+  f_equal; [apply Hx | apply IH]; assumption.
+Qed.
+
+Lemma zipc_eq : forall A (R : A -> Prop) (f : A -> A -> comparison) la,
+  Forall (eq_at R f) la -> forall lb, Forall R lb -> length la = length lb ->
+  zipc f la lb = Eq -> la = lb.
+Proof.
+  induction 1 as [|x la Hx _ IH]; intros [|y lb] Hb; cbn [zipc length]; try discriminate; auto.
+  intros L H. apply lex_eq in H. destruct H as [H1 H2]. inversion Hb; subst.
+  f_equal; [apply Hx | apply IH]; auto.
+Qed.
+
+Lemma forallb_Forall : forall A (f : A -> bool) l, forallb f l = true -> Forall (fun x => f x = true) l.
+Proof.
+  induction l as [|x l IH]; cbn [forallb]; intros H; constructor;
+    apply andb_true_iff in H; [apply H | apply IH, H].
+Qed.
+
+Lemma forallb_pair_Forall : forall A B (f : A -> bool) (g : B -> bool) (l : list (A * B)),
+  forallb (fun kv => f (fst kv) && g (snd kv)) l = true ->
+  Forall (fun x => f x = true) (map fst l) /\ Forall (fun x => g x = true) (map snd l).
+Proof.
+  induction l as [|[a b] l IH]; cbn [forallb map fst snd]; intros H; [split; constructor|].
+  apply andb_true_iff in H. destruct H as [H1 H2]. apply andb_true_iff in H1.
+  destruct (IH H2). split; constructor; tauto.
+Qed.
+
+Lemma Forall_all : forall A (P : A -> Prop) l, (forall x, P x) -> Forall P l.
+Proof. induction l; constructor; auto. Qed.
+
+Lemma Forall_and_impl : forall A (P Q S : A -> Prop) l,
+  (forall x, P x -> Q x -> S x) -> Forall P l -> Forall Q l -> Forall S l.
+Proof. induction 2; intros HQ; inversion HQ; subst; constructor; auto. Qed.
+
+Lemma map_fst_snd_eq : forall A B (la lb : list (A * B)),
+  map fst la = map fst lb -> map snd la = map snd lb -> la = lb.
+Proof.
+  induction la as [|[a b] la IH]; destruct lb as [|[a' b'] lb]; cbn [map fst snd];
+    try discriminate; auto.
+  intros H1 H2. inversion H1; inversion H2; subst. f_equal. apply IH; assumption.
+Qed.
+
+Lemma cmp_bool_eq : forall x y, cmp_bool x y = Eq -> x = y.
+Proof. destruct x, y; cbn; congruence. Qed.
+
+Lemma cmp_pres_eq : forall x y, cmp_pres x y = Eq -> x = y.
+Proof. intros [[|]|] [[|]|]; cbn; congruence. Qed.
+
+Lemma cmp_bytes_eq : forall x y, cmp_bytes x y = Eq -> x = y.
+Proof.
+  intros x y. rewrite cmp_bytes_lexl. intros H.
+  apply (lexl_eq N (fun _ => True) N.compare x); auto.
+  - apply Forall_all. intros a z _. apply N.compare_eq_iff.
+  - apply Forall_all. auto.
+Qed.
+
+Lemma cmp_eq_wf : forall a, wf a -> eq_at wf cmp a.
+Proof.
+  unfold wf.
+  induction a using cval_nested_ind; intros Wa b0 Wb E; destruct b0; try discriminate E;
+    cbn [wfb] in Wa, Wb.
+  - f_equal. apply cmp_bool_eq, E.
+  - f_equal. apply N.compare_eq_iff, E.
+  - f_equal. apply Z.compare_eq_iff, E.
+  - f_equal. apply N.compare_eq_iff in E. apply f64_key_inj; assumption.
+  - f_equal. apply cmp_bytes_eq, E.
+  - reflexivity.
+  - f_equal. rewrite cmp_struct in E.
+    apply (lexl_eq _ (fun pf => wfb (snd pf) = true) cmp_field fs); auto using forallb_Forall.
+    apply forallb_Forall in Wa.
+    eapply Forall_and_impl; [|exact H|exact Wa]. cbn beta.
+    intros [p x] Hx Wx [q y] Wy Exy. unfold cmp_field in Exy. cbn [fst snd] in *.
+    apply lex_eq in Exy. destruct Exy as [E1 E2].
+    f_equal; [apply cmp_pres_eq, E1 | apply Hx; assumption].
+  - rewrite cmp_oneof in E. apply lex_eq in E. destruct E as [E1 E2].
+    f_equal; [apply N.compare_eq_iff, E1 | apply IHa; assumption].
+  - f_equal. rewrite cmp_arr in E. apply lex_eq in E. destruct E as [E1 E2].
+    apply Nat.compare_eq_iff in E1.
+    apply (zipc_eq _ (fun x => wfb x = true) cmp l); auto using forallb_Forall.
+    apply forallb_Forall in Wa.
+    eapply Forall_and_impl; [|exact H|exact Wa]. cbn beta. intros x Hx Wx. apply Hx, Wx.
+  - f_equal. rewrite cmp_map in E. apply lex_eq in E. destruct E as [E1 E2].
+    apply forallb_pair_Forall in Wa, Wb. destruct Wa as [Wa1 Wa2], Wb as [Wb1 Wb2].
+    pose proof (lexl_Eq_length _ _ _ _ E1) as L. rewrite !map_length in L.
+    apply map_fst_snd_eq.
+    + apply (lexl_eq _ (fun x => wfb x = true) cmp); auto.
+      eapply Forall_and_impl; [|exact H|exact Wa1]. cbn beta. intros x Hx Wx. apply Hx, Wx.
+    + apply (zipc_eq _ (fun x => wfb x = true) cmp); rewrite ?map_length; auto.
+      eapply Forall_and_impl; [|exact H0|exact Wa2]. cbn beta. intros x Hx Wx. apply Hx, Wx.
+Qed.
+
+Theorem cmp_eq_iff : forall a b, wf a -> wf b -> (cmp a b = Eq <-> a = b).
+Proof.
+  intros a b Wa Wb. split.
+  - apply cmp_eq_wf; assumption.
+  - intros ->. apply cmp_refl.
+Qed.
+
+(* the direction that needs no hypothesis *)
+Theorem cmp_eq_of_eq : forall a b, a = b -> cmp a b = Eq.
+Proof. intros a b ->. apply cmp_refl. Qed.
+
+Theorem cmp_data_eq : forall a b, wf a -> wf b -> cmp a b = Eq -> data a = data b.
+Proof. intros a b Wa Wb E. f_equal. apply cmp_eq_iff; assumption. Qed.
+
+Theorem cmp_copy_eq : forall v, cmp (copy v) v = Eq.
+Proof. intros. unfold copy. apply cmp_refl. Qed.
+
+(* a nested value with every kind of node satisfies the hypothesis *)
+Example wf_example :
+  wf (CStruct [ (None, CF64 13830554455654793216);                       (* -1.0 *)
+                (Some false, CF64 4607182418800017408);                  (* absent, stored 1.0 *)
+                (Some true, COneof 2 (CArr [CF64 0; CF64 18446744073709551615; CU64 (2 ^ 70)]));
+                (None, CMap [ (CStr [104; 105], CF64 9221120237041090560);  (* NaN *)
+                              (CI64 (-5), CStruct [(None, CNil); (Some true, CBool true)]) ]) ]).
+Proof. reflexivity. Qed.
+
+Theorem cmp_total_order :
+  (forall a, cmp a a = Eq) /\
+  (forall a b, cmp b a = CompOpp (cmp a b)) /\
+  (forall a b, wf a -> wf b -> (cmp a b = Eq <-> a = b)) /\
+  (forall a b c, cmp a b = Lt -> cmp b c = Lt -> cmp a c = Lt) /\
+  (forall a b c r, cmp a b = Eq -> cmp b c = r -> cmp a c = r) /\
+  (forall a b c r, cmp a b = r -> cmp b c = Eq -> cmp a c = r).
+Proof.
+  repeat split; intros.
+  - apply cmp_refl.
+  - apply cmp_antisym.
+  - apply cmp_eq_iff; assumption.
+  - subst. apply cmp_refl.
+  - eapply cmp_trans; eassumption.
+  - eapply cmp_trans_eq_l; eassumption.
+  - eapply cmp_trans_eq_r; eassumption.
 Qed.
